@@ -334,7 +334,7 @@ func (g *Gen) atom() ast.Vertex {
 	case 12:
 		g.feat("isset")
 		n := &ast.ExprIsset{IssetTkn: g.kw(token.T_ISSET, "isset"), OpenParenthesisTkn: g.ch('('), CloseParenthesisTkn: g.ch(')')}
-		k := g.rng(1, 3, "issetn")
+		k := g.count(1, 3, "issetn")
 		for i := 0; i < k; i++ {
 			n.Vars = append(n.Vars, g.Variable(2, false))
 			if i < k-1 {
@@ -410,7 +410,7 @@ func (g *Gen) classRef(allowStatic bool) ast.Vertex {
 func (g *Gen) Args() ([]ast.Vertex, []*token.Token) {
 	var args []ast.Vertex
 	var seps []*token.Token
-	n := g.rng(0, 3, "nargs")
+	n := g.count(0, 3, "nargs")
 	for i := 0; i < n; i++ {
 		a := &ast.Argument{Expr: g.Expr()}
 		if i == n-1 && g.chance(1, 5, "spread") {
@@ -874,7 +874,7 @@ func (g *Gen) Array() ast.Vertex {
 		n.ArrayTkn = g.kw(token.T_ARRAY, "array")
 		n.OpenBracketTkn, n.CloseBracketTkn = g.ch('('), g.ch(')')
 	}
-	k := g.rng(0, 3, "items")
+	k := g.count(0, 3, "items")
 	for i := 0; i < k; i++ {
 		it := &ast.ExprArrayItem{}
 		switch g.intn(6, "item") {
@@ -949,7 +949,7 @@ func (g *Gen) listTarget(level int) *ast.ExprList {
 		g.feat("php5-empty-list")
 		return n
 	}
-	k := g.rng(1, 3, "listitems")
+	k := g.count(1, 3, "listitems")
 	keyed := g.O.PHP7 && !g.O.Common && g.chance(1, 4, "keyedlist")
 	if keyed {
 		g.feat("list-keyed")
@@ -1098,7 +1098,7 @@ func (g *Gen) ConstExpr() ast.Vertex {
 			n.OpenBracketTkn, n.CloseBracketTkn = g.ch('('), g.ch(')')
 		}
 		if g.depth <= g.O.MaxDepth {
-			k := g.rng(0, 2, "constitems")
+			k := g.count(0, 2, "constitems")
 			for i := 0; i < k; i++ {
 				it := &ast.ExprArrayItem{Val: g.ConstExpr()}
 				if g.flip("constkey") {
